@@ -182,6 +182,7 @@ class Supervisor:
                 break
         p.stdout.close()
         rc = p.wait()
+        self.cleanup_scratch(p.pid)
         if finished and rc == 0:
             return b
         # abnormal end
@@ -196,6 +197,12 @@ class Supervisor:
         self.investigate(cur, timed_out, rc)
         return cur + 1
 
+    def cleanup_scratch(self, pid):
+        d = os.path.join(self.env["VERIF_TMP"], "w%d" % pid)
+        if os.path.isdir(d):
+            import shutil
+            shutil.rmtree(d, ignore_errors=True)
+
     # ---- crash / hang triage ----
     def run_single(self, case, timeout):
         p = subprocess.Popen(self.cmd("--only", str(case), "--verbose"), env=self.env,
@@ -207,6 +214,7 @@ class Supervisor:
             p.kill()
             out, err = p.communicate()
             to = True
+        self.cleanup_scratch(p.pid)
         return p.returncode, out.decode(errors="replace"), err.decode(errors="replace"), to
 
     def investigate(self, case, timed_out, rc):
@@ -328,6 +336,19 @@ def classify_crash(err, rc):
                 kind = "signal:%d" % -rc
         else:
             kind = "exit:%s" % rc
+    if kind == "asan:stack-overflow":
+        # unbounded recursion: the innermost frames are whatever leaf ran out of stack and vary from run to run;
+        # the recursing function is the most frequent libcellml frame of the trace
+        freq = {}
+        for line in err.splitlines():
+            if FRAME2_RE.search(line) and "libcellml::" in line:
+                mm = re.search(r" in (.*?)(?: /| \()", line)
+                if mm:
+                    fn = strip_fn(mm.group(1))
+                    freq[fn] = freq.get(fn, 0) + 1
+        if freq:
+            top = sorted(freq.items(), key=lambda kv: (-kv[1], kv[0]))[0][0]
+            return kind + "@recursion:" + top, "\n".join(err.splitlines()[:40])
     frames = []
     for line in err.splitlines():
         m = FRAME2_RE.search(line)
